@@ -770,6 +770,14 @@ func (c *Conn) writev(in [][]byte) (int, error) {
 	}
 
 	nwrite, err := writev(c, in)
+	if nwrite <= 0 && (errors.Is(err, syscall.EAGAIN) || errors.Is(err, syscall.EINTR)) {
+		// Nothing could be written now: queue the whole input, like write does,
+		// instead of handing EAGAIN to the caller of a non-blocking Writev.
+		for _, v := range in {
+			c.newToWriteBuf(v)
+		}
+		return size, nil
+	}
 	if nwrite > 0 {
 		n := nwrite
 		onWrittenSize := c.p.g.onWrittenSize
